@@ -340,8 +340,15 @@ func checkC07(c gen.ProgCase) Verdict {
 			}
 		}
 	}
+	sameNames := hashCase(c)%4 == 0
 	judge := func(what string, p *ref.Program, isBase bool) error {
 		names, srcs := gen.Sources(p)
+		if sameNames {
+			// the name of a source is "only used for error messages": several sources may carry one
+			for i := range names {
+				names[i] = "views.soy"
+			}
+		}
 		viol := ref.Check(p)
 		cb, err, pn := compileBundle(names, srcs, p.Globals)
 		if pn != nil {
